@@ -1,11 +1,26 @@
 """C14 - tracked world stays self-consistent under any object update / kill history"""
-from contracts import c14_native
+from contracts import c14_native, c14_contracts
 PID = "C14"
-META = {"level": "other", "explanation": "<filled in later by the framework owner>", "trusted_base": []}
+META = {
+    "level": "other",
+    "explanation": (
+        "P (proved on the real body of RegionObjectsState.cancel_futures): the scan of the (local id, update type) table is never left "
+        "early, so every request type registered for that local id is reached (found the 'break' defect, fixed). "
+        "B (bounded, NOT proved): an independent reference model of the scene graph compared after every message with the real "
+        "ProxyWorldObjectManager / region managers driven through a real Session: every (scene graph, enabled message) pair over a universe "
+        "of 3 local ids x 3 full ids x 2 regions + unknown handle (91-message alphabet; quick: ~7.7k of ~16k pairs under full renaming "
+        "symmetry, thorough: all ~94.7k pairs), plus seeded random walks of 20-69 steps with terse / cached / property / request steps. "
+        "Four genuine defects found and fixed."),
+    "trusted_base": [
+        "whole-history clause (indices, parent/child/orphan links, futures) is bounded tier only: the handlers mutate dict-of-object "
+        "graphs through aliasing that the VC generator does not model",
+        "asyncio futures and the event loop are real CPython objects in the bounded tier, externals in the proof",
+    ],
+}
 
 
 def register(reg):
-    pass
+    c14_contracts.register_p(reg, PID)
 
 
 BOUNDED = [c14_native.bounded_transitions, c14_native.bounded_random_walks]
